@@ -348,6 +348,7 @@ func c18iall(d *c18idrv) {
 	c18irun(d, vc18.StructPadTrail())
 	c18irun(d, vc18.StructPadMid())
 	c18irun(d, vc18.StructPadNest())
+	c18irun(d, vc18.StructPadNestOff())
 	c18irun(d, vc18.StructPadPtr())
 	c18irun(d, vc18.ArrayPadLead())
 	c18irun(d, vc18.StructPadWide())
